@@ -657,3 +657,42 @@ def bytestring_tuple_key_programs():
             out += [b"\x80\x03(" + pre + twin + b"Kcd.", b"\x80\x03}(" + pre + b"u" + twin + b"Kcs.", b"\x80\x03}(" + pre + twin + b"Kcu.",
                     b"\x80\x03}q\x00(" + pre + b"uh\x00" + twin + b"Kcs."]
     return out
+
+
+def both_ends_append_programs():
+    """An empty list is remembered (PUT in any width / MEMOIZE / DUP), extended through the reference on the stack, fetched again and
+    extended through that reference too; both are returned.  What the two lists hold is finding K1's subject; that it does NOT
+    depend on how the input arrives, on what was decoded before, or on anything but the program is what C14 / C11 ask."""
+    out = []
+    remember = [(BINPUT(0), BINGET(0)), (PUT(0), GET(0)), (LONG_BINPUT(0), LONG_BINGET(0)), (MEMOIZE, BINGET(0)), (PUT(300), LONG_BINGET(300))]
+    for mk in (EMPTY_LIST, MARK + LIST):
+        for put, get in remember:
+            for n1 in (1, 2, 3, 5):
+                for n2 in (1, 2, 4):
+                    a = b"".join(BININT1(i + 1) + APPEND for i in range(n1))
+                    b = b"".join(BININT1(i + 11) + APPEND for i in range(n2))
+                    out.append(mk + put + a + get + b + TUPLE2 + STOP)
+                    out.append(mk + put + MARK + b"".join(BININT1(i + 1) for i in range(n1)) + APPENDS + get + b + get + TUPLE3 + STOP)
+        for n1 in (1, 2, 3):
+            a = b"".join(BININT1(i + 1) + APPEND for i in range(n1))
+            out.append(mk + DUP + a + TUPLE2 + STOP)
+    return list(dict.fromkeys(out))
+
+
+def py2_bytearray_pickle(data, proto, c=False):
+    """What Python 2.7 (and Python 3 before 3.8) writes for bytearray(data): bytearray(<text>, 'latin-1'), byte for byte as
+    pickle.py (c=False) / cPickle (c=True) of 2.7.18 write it."""
+    u = data.decode("latin-1")
+    if proto == 0:
+        t = b"V" + u.encode("raw-unicode-escape").replace(b"\n", b"\\u000a") + b"\n"
+        if c:
+            return b"c__builtin__\nbytearray\np1\n(" + t + b"S'latin-1'\ntRp2\n."
+        return b"c__builtin__\nbytearray\np0\n(" + t + b"p1\nS'latin-1'\np2\ntp3\nRp4\n."
+    x = b"X" + struct.pack("<I", len(u.encode("utf-8"))) + u.encode("utf-8")
+    if proto == 1:
+        if c:
+            return b"c__builtin__\nbytearray\nq\x01(" + x + b"U\x07latin-1tRq\x02."
+        return b"c__builtin__\nbytearray\nq\x00(" + x + b"q\x01U\x07latin-1q\x02tq\x03Rq\x04."
+    if c:
+        return b"\x80\x02c__builtin__\nbytearray\nq\x01" + x + b"U\x07latin-1\x86Rq\x02."
+    return b"\x80\x02c__builtin__\nbytearray\nq\x00" + x + b"q\x01U\x07latin-1q\x02\x86q\x03Rq\x04."
